@@ -406,7 +406,7 @@ def variants(rng, base, sid0, thresholds, rals, classes):
 def run_c10(ctx, binary):
     th = ctx.thorough()
     bg = Background(ctx, lambda c: (
-        exhaustive(c, consts(2, 2, 2 if th else 1, 6 if th else 5, 2, 0, False, False, "{0, 60, 100000}", "{FALSE}"), "C10"),
+        exhaustive(c, consts(2, 1 if th else 2, 1, 6 if th else 5, 2, 0, False, False, "{0, 60}" if th else "{0, 60, 100000}", "{FALSE}"), "C10"),
         {"nl_name": reachable(c, consts(2, 1, 1, 4, 2, 0, False, False, "{100000}", "{FALSE}", evil="{2}"),
                               "NoC10rejoin", "C10 newline name")}))
     num, depth = (400, 40) if th else (48, 36)
@@ -437,8 +437,10 @@ def run_c10(ctx, binary):
            "shutdown+restart) executed on the real Snapshotter under minCompactSize 0/300/128K with the same concrete names; "
            "every restart state is compared by TLC with the state the inputs imply; distinct = distinct (history, threshold, "
            "name class)",
-           {"model_constants": "exhaustive: 2 names x 2 addresses, times 0..%d, <=%d inputs, 2 sessions, thresholds {0,60,never} "
-                               "with 40 bytes/node; simulation: 3 names x 3 addresses, times 0..6 (0..24 with the appended inputs) mapped to 64-bit values" % (2 if th else 1, 6 if th else 5),
+           {"model_constants": ("exhaustive: 2 names x 1 address, times 0..1, <=6 inputs, 2 sessions, thresholds {0,60}" if th else
+                                "exhaustive: 2 names x 2 addresses, times 0..1, <=5 inputs, 2 sessions, thresholds {0,60,never}") +
+                               " with 40 bytes/node; simulation: 3 names x 3 addresses, times 0..6 (0..24 with the appended inputs) mapped "
+                               "to 64-bit values",
             "evaluations": summ["restarts"], "histories_differing_across_thresholds": differ,
             "newline_class_schedules": len([s for s in scheds if s["cfg"]["cls"] == "newline"])},
            ASSUME)
@@ -449,7 +451,7 @@ def run_c10(ctx, binary):
 def run_c11(ctx, binary):
     th = ctx.thorough()
     bg = Background(ctx, lambda c: (
-        exhaustive(c, consts(2, 2 if th else 1, 2 if th else 1, 5 if th else 4, 3, 0, True, True, "{0, 60, 100000}", "{FALSE, TRUE}"), "C11"),
+        exhaustive(c, consts(2, 2 if th else 1, 2 if th else 1, 4, 3, 0, True, True, "{0, 60, 100000}", "{FALSE, TRUE}"), "C11"),
         {"rm_window": reachable(c, consts(2, 1, 1, 3, 1, 0, False, False, "{0}", "{FALSE}"), "NoC11safe",
                                 "C11 remove/rename window")}))
     num, depth = (400, 40) if th else (64, 36)
@@ -467,7 +469,7 @@ def run_c11(ctx, binary):
            "by a fresh real NewSnapshotter and judged by the CrashSafe monitor; histories also contain explicit crashes followed "
            "by a restart from the crash image; distinct = distinct (history, threshold)",
            {"model_constants": "exhaustive: 2 names x %d addresses, times 0..%d, <=%d inputs, 3 sessions, crash after any "
-                               "operation, leave allowed, both rejoin-after-leave settings, thresholds {0,60,never}" % (2 if th else 1, 2 if th else 1, 5 if th else 4),
+                               "operation, leave allowed, both rejoin-after-leave settings, thresholds {0,60,never}" % (2 if th else 1, 2 if th else 1, 4),
             "evaluations": summ["crashpoints"]}, ASSUME)
 
 
@@ -479,7 +481,7 @@ SUFFIX = [{"a": "adv", "d": 301}, feed(1, [[1, 1]]), feed(6, [], MAXT), feed(7, 
 def run_c12(ctx, binary):
     th = ctx.thorough()
     bg = Background(ctx, lambda c: (
-        exhaustive(c, consts(2, 1, 1, 5 if th else 4, 2, 1, False, False, "{0, 60, 100000}", "{FALSE}"), "C12"),
+        exhaustive(c, consts(2, 2 if th else 1, 1, 4, 2, 1, False, False, "{0, 60, 100000}", "{FALSE}"), "C12"),
         {"swap_fault": reachable(c, consts(2, 1, 1, 3, 1, 1, False, False, "{0}", "{FALSE}"), "NoC12panic",
                                  "C12 nil handles after a failed swap")}))
     num, depth = (60, 24) if th else (10, 16)
@@ -514,8 +516,8 @@ def run_c12(ctx, binary):
            "for each executed base history, each numbered file operation of each input is failed once (one run per injection "
            "point, child process per batch); after the faulting input the history continues, the shim clock passes the 30 s retry "
            "interval, later joins/clock changes are fed, then shutdown and restart; distinct = distinct (history, injection point)",
-           {"model_constants": "exhaustive: 2 names, times 0..1, <=%d inputs, one fault at any operation of any input, thresholds "
-                               "{0,60,never}" % (5 if th else 4),
+           {"model_constants": "exhaustive: 2 names x %d address(es), times 0..1, <=4 inputs, one fault at any operation of any "
+                               "input, thresholds {0,60,never}" % (2 if th else 1),
             "evaluations": summ["faults"], "injection_points_total": total_points, "injection_points_run": len(scheds),
             "base_histories": len(bases)}, ASSUME)
 
@@ -525,7 +527,7 @@ def run_c12(ctx, binary):
 def run_c13(ctx, binary):
     th = ctx.thorough()
     bg = Background(ctx, lambda c: exhaustive(
-        c, consts(2, 1, 2 if th else 1, 6 if th else 5, 3 if th else 2, 0, False, True, "{0, 60, 100000}", "{FALSE, TRUE}"), "C13"))
+        c, consts(2, 1, 2 if th else 1, 5, 3 if th else 2, 0, False, True, "{0, 60, 100000}", "{FALSE, TRUE}"), "C13"))
     num, depth = (300, 36) if th else (48, 30)
     base = simulate(ctx, [1, 1, 2, 3, 4, 5, 6, 7, 8, 9, 9, 10], num, depth, leave=True, sess=3)
     rng = random.Random(ctx.seed)
@@ -555,5 +557,5 @@ def run_c13(ctx, binary):
            "after it), shutdown, restart, and for half of them a further session appending after the leave line; both "
            "rejoin-after-leave settings and thresholds 0/300/128K; distinct = distinct (history, threshold)",
            {"model_constants": "exhaustive: 2 names, times 0..%d, <=%d inputs, %d sessions, both rejoin-after-leave settings, "
-                               "thresholds {0,60,never}" % (2 if th else 1, 6 if th else 5, 3 if th else 2),
+                               "thresholds {0,60,never}" % (2 if th else 1, 5, 3 if th else 2),
             "evaluations": leaves}, ASSUME)
